@@ -111,6 +111,12 @@ Definition all_ids (ev : event) : list N := ids (e_arg ev) ++ ids (e_creates ev)
 (* the values RecordIDs(false) yields for a CUD row *)
 Definition row_vals (r : row) : list N := r_id r :: r_parent r :: r_refs r.
 
+(* validateObjectIDs looks at the argument's reference fields (RefFields) only; a plain RecordID field (AddField with
+   DataKind_RecordID) is not checked there although objectType.regenerateIDs rewrites it like a reference (finding
+   F46).  Encoding convention of the traces: the LAST element of r_refs is the row type's plain RecordID field, the
+   others are its reference fields.  [c04_arg_plain_checked] = "validation checks every RecordID field of the argument" *)
+Definition checked_arg_fields (l : list N) : list N := if c04_arg_plain_checked then l else removelast l.
+
 Definition known_or_not_raw (known : list N) (v : N) : bool := (v =? 0) || memb v known || negb (is_raw v).
 
 Definition valid (ev : event) : bool :=
@@ -127,7 +133,7 @@ Definition valid (ev : event) : bool :=
   (* flattened tree: a parent is the ID of an argument row (representation invariant, see header) *)
   && forallb (fun r => (r_parent r =? 0) || memb (r_parent r) (ids (e_arg ev))) (e_arg ev)
   (* argument ref fields: a raw value must be an argument row's ID *)
-  && forallb (fun r => forallb (known_or_not_raw (ids (e_arg ev))) (r_refs r)) (e_arg ev)
+  && forallb (fun r => forallb (known_or_not_raw (ids (e_arg ev))) (checked_arg_fields (r_refs r))) (e_arg ev)
   (* CUD rows: a raw value must be the ID of some row of the event (argument rows included) *)
   && forallb (fun r => forallb (known_or_not_raw (all_ids ev)) (row_vals r)) (e_creates ev ++ e_updates ev)
   (* explicit IDs must not exceed MaxRecordID (proposed repair of F44; without it the bound is MaxUint64: no check) *)
